@@ -469,6 +469,10 @@ pub enum Decision {
     /// rule as for the other hard faults: the run may fail loudly, it may not complete with a
     /// different table (a fallback path that does the work on the calling thread is fine).
     SpawnFault { at: u64 },
+    /// (round 16) the program asks for an environment variable that by its name sets a job or
+    /// thread count (`CARGO_BUILD_JOBS`, `RAYON_NUM_THREADS`, `NUM_JOBS`, ...): CI systems and
+    /// build wrappers set these. `n == 0`: not set (the default); otherwise its value.
+    EnvJobs { name: String, n: u32 },
 }
 
 /// length of each generator's output under the default schedule (layout, likely): where the
@@ -477,6 +481,11 @@ pub static OUT_LEN_HINT: [std::sync::atomic::AtomicU64; 2] = [std::sync::atomic:
 
 pub const NO_DEVIATION: u32 = u32::MAX;
 pub const NO_FAULT: u64 = u64::MAX;
+/// (round 16) `Decision::ReadFault { at }` with this bit set: the error is persistent — every later
+/// read of the same file fails too (a bad sector rather than a hiccup)
+pub const PERSISTENT_BIT: u64 = 1 << 40;
+/// salt of the hard plan that stands for the persistent kind
+pub const PERSISTENT_EIO: u64 = 0x5049_434b;
 pub const DEFAULT_CORES: u32 = 8;
 pub const DEFAULT_FD_LIMIT: u32 = 1024;
 /// open descriptors at which the machine's limit becomes a decision of the run
@@ -497,6 +506,7 @@ impl Decision {
             Decision::WriteFault { at } => *at == NO_FAULT,
             Decision::StatFault { at } => *at == NO_FAULT,
             Decision::SpawnFault { at } => *at == NO_FAULT,
+            Decision::EnvJobs { n, .. } => *n == 0,
         }
     }
     pub fn defaulted(&self) -> Decision {
@@ -530,6 +540,7 @@ impl Decision {
             Decision::WriteFault { .. } => Decision::WriteFault { at: NO_FAULT },
             Decision::StatFault { .. } => Decision::StatFault { at: NO_FAULT },
             Decision::SpawnFault { .. } => Decision::SpawnFault { at: NO_FAULT },
+            Decision::EnvJobs { name, .. } => Decision::EnvJobs { name: name.clone(), n: 0 },
         }
     }
     /// scheduling deviations live in their own stream (keyed by step), `Open` decisions are keyed
@@ -909,6 +920,8 @@ pub struct RunStats {
     pub write_faults_injected: u64,
     pub stat_faults_injected: u64,
     pub spawn_faults_injected: u64,
+    /// panics of spawned threads that did not end the run (handed to `join` or lost with a detached thread)
+    pub thread_panics_survived: u64,
 }
 
 impl RunStats {
@@ -953,6 +966,7 @@ impl RunStats {
         self.write_faults_injected += o.write_faults_injected;
         self.stat_faults_injected += o.stat_faults_injected;
         self.spawn_faults_injected += o.spawn_faults_injected;
+        self.thread_panics_survived += o.thread_panics_survived;
     }
 }
 
@@ -1167,6 +1181,10 @@ pub struct World {
     /// a write of this run met the full device: failing loudly is fine
     pub write_faulted: bool,
     /// (round 13) which path-based metadata query fails with EIO in this run, how many were seen
+    /// (round 16) the file whose reads keep failing with EIO (persistent read error)
+    pub eio_path: Option<String>,
+    /// (round 16) job-count environment variables asked for so far in this execution
+    pub env_jobs: BTreeMap<String, u32>,
     pub stat_fault_decided: bool,
     pub stat_fault_at: Option<u64>,
     pub stats_seen: u64,
@@ -1288,6 +1306,8 @@ impl World {
             write_fault_decided: false,
             out_budget: None,
             write_faulted: false,
+            eio_path: None,
+            env_jobs: BTreeMap::new(),
             stat_fault_decided: false,
             stat_fault_at: None,
             stats_seen: 0,
@@ -1761,6 +1781,38 @@ impl World {
         io_seed
     }
 
+    /// An environment variable that sets a job / thread count: 0 = not set
+    pub fn decide_env_jobs(&mut self, name: &str) -> u32 {
+        if let Some(n) = self.env_jobs.get(name) {
+            return *n;
+        }
+        let n = match &mut self.mode {
+            Mode::Random { aux, profile, .. } => {
+                if profile.cover_iter.is_some() || aux.chance(1, 2) {
+                    0
+                } else if aux.chance(1, 2) {
+                    const C: [u32; 8] = [1, 2, 4, 4, 8, 8, 12, 16];
+                    C[aux.below(C.len() as u64) as usize]
+                } else {
+                    1 + aux.below(128) as u32
+                }
+            }
+            Mode::Replay(ReplayPlan { q, .. }) => match q.front() {
+                Some(Decision::EnvJobs { name: nm, n }) if nm == name => {
+                    let n = *n;
+                    q.pop_front();
+                    n
+                }
+                _ => 0,
+            },
+        };
+        self.env_jobs.insert(name.to_string(), n);
+        self.stats.cores_asked += 1;
+        self.event("env_jobs", n as u64, 0);
+        self.trace.push(Decision::EnvJobs { name: name.to_string(), n });
+        n
+    }
+
     pub fn decide_cores(&mut self) -> u32 {
         // a property of the machine: the same answer for the whole execution
         if let Some(n) = self.cores {
@@ -1846,10 +1898,13 @@ impl World {
         let at = match &mut self.mode {
             Mode::Random { aux, profile, .. } => {
                 if profile.read_fault && profile.cover_iter.is_none() {
-                    if aux.chance(1, 2) {
-                        aux.below(4)
+                    let at = if aux.chance(1, 2) { aux.below(4) } else { aux.below(720) };
+                    // (round 16) a third of the read errors are persistent; decided from the index
+                    // itself so that no further draw shifts what follows
+                    if crate::rng::splitmix64(&mut (at ^ 0x7065_7273)) % 3 == 0 {
+                        at | PERSISTENT_BIT
                     } else {
-                        aux.below(720)
+                        at
                     }
                 } else {
                     NO_FAULT
@@ -1867,8 +1922,8 @@ impl World {
         if at != NO_FAULT {
             self.hard = Some(HardPlan {
                 kind: HardKind::ReadEio,
-                at,
-                salt: 0,
+                at: at & !PERSISTENT_BIT,
+                salt: if at & PERSISTENT_BIT != 0 { PERSISTENT_EIO } else { 0 },
             });
             self.gating_fault = true;
             self.event("read_fault_planned", at, 0);
